@@ -99,12 +99,12 @@ pub fn dec_norm_parts(int: &str, frac: &str) -> String {
     if f.is_empty() { i.to_string() } else { format!("{i}.{f}") }
 }
 
-pub enum Amt { Ok(String, usize /*decimals written*/), NoSep(String), Bad(&'static str) }
+pub enum Amt { Ok(String, usize /*decimals written*/), NoSep(String), Dot, Bad(&'static str) }
 /// `nd` amount: digits, exactly one ',', at least one digit before it, total length <= maxlen
 pub fn amount(s: &str, maxlen: usize) -> Amt {
     if s.is_empty() { return Amt::Bad("amount.empty"); }
     if !all_ascii(s) { return Amt::Bad("amount.non-ascii"); }
-    if s.contains('.') { return Amt::Bad("amount.dot"); }
+    if s.contains('.') { return if s.bytes().all(|b| b.is_ascii_digit() || b == b'.') && s.matches('.').count() == 1 && s.as_bytes()[0].is_ascii_digit() { Amt::Dot } else { Amt::Bad("amount.non-decimal") }; }
     if s.starts_with('+') || s.starts_with('-') { return Amt::Bad("amount.sign"); }
     if s.bytes().any(|b| !(b.is_ascii_digit() || b == b',')) { return Amt::Bad("amount.non-decimal"); }
     let commas = s.matches(',').count();
@@ -139,7 +139,7 @@ pub fn party_line(l: &str) -> Option<bool> {
     if l.len() > 38 { return Some(false); }
     if rx!(r"^/[^/][{X}]{0,33}$").is_match(l) && !l[1..].contains('/') { return Some(true); }
     if rx!(r"^/[A-Z]/[{X}]{1,34}$").is_match(l) && !l[3..].contains('/') { return Some(true); }
-    if rx!(r"^//[A-Z]{2}[A-Za-z0-9]{0,32}$").is_match(l) { return Some(true); }
+    if rx!(r"^//[A-Z]{2}[A-Za-z0-9]{0,31}$").is_match(l) { return Some(true); }
     None
 }
 
@@ -182,6 +182,7 @@ fn ccy_amount(c: &str, non_commodity: bool, by_ccy: bool) -> Result<Vec<(&'stati
     if non_commodity && iso4217::COMMODITIES.contains(&cur) { return Err(V::Reject("currency.commodity")); }
     match amount(a, 15) {
         Amt::Bad(w) => Err(V::Reject(w)),
+        Amt::Dot => Err(V::Unspec("amount.dot")),
         Amt::NoSep(v) => { if minor.is_none() { return Err(V::Unspec("currency.not-iso")); } let _ = v; Err(V::Unspec("amount.no-separator")) }
         Amt::Ok(v, nd) => {
             match minor {
@@ -210,7 +211,7 @@ pub fn ccy_amount_lenient(c: &str) -> Option<(String, String)> {
 fn rec_11x(c: &str) -> V {
     // 3!n6!n[4!n][6!n]
     if !all_ascii(c) { return V::Reject("charset=non-ascii"); }
-    let Some(m) = rx!(r"^(\d{3})(\d{6})(\d{4})?(\d{6})?$").captures(c) else { return V::Reject("shape"); };
+    let Some(m) = rx!(r"^([0-9]{3})([0-9]{6})([0-9]{4})?([0-9]{6})?$").captures(c) else { return V::Reject("shape"); };
     // NOTE: 11R/11S/11 carry a 6!n date; one meaning everywhere (C11) = documented pivot
     let Some((y, mo, d)) = date6(&m[2]) else { return V::Reject("date.invalid"); };
     let mut v = vec![("message_type", s(&m[1])), ("date", CV::Date(y, mo, d))];
@@ -220,12 +221,12 @@ fn rec_11x(c: &str) -> V {
 }
 fn rec_11(c: &str) -> V {
     if !all_ascii(c) { return V::Reject("charset=non-ascii"); }
-    let Some(m) = rx!(r"^(\d{3})(\d{6})$").captures(c) else { return V::Reject("shape"); };
+    let Some(m) = rx!(r"^([0-9]{3})([0-9]{6})$").captures(c) else { return V::Reject("shape"); };
     let Some((y, mo, d)) = date6(&m[2]) else { return V::Reject("date.invalid"); };
     acc(vec![("message_type", s(&m[1])), ("date", CV::Date(y, mo, d))])
 }
 fn rec_12(c: &str) -> V {
-    if rx!(r"^\d{3}$").is_match(c) { acc(vec![("type_code", s(c))]) } else { V::Reject("shape") }
+    if rx!(r"^[0-9]{3}$").is_match(c) { acc(vec![("type_code", s(c))]) } else { V::Reject("shape") }
 }
 fn rec_13c(c: &str) -> V {
     // /8c/4!n1!x4!n ; valid codes documented
@@ -248,7 +249,7 @@ fn rec_13d(c: &str) -> V {
     acc(vec![("date", CV::Date(y, mo, d)), ("time", CV::T(m[2].to_string())), ("offset_sign", s(&m[3])), ("offset", s(&m[4]))])
 }
 fn rec_19(c: &str) -> V {
-    match amount(c, 17) { Amt::Ok(v, _) => acc(vec![("amount", CV::D(v))]), Amt::NoSep(_) => V::Unspec("amount.no-separator"), Amt::Bad(w) => V::Reject(w) }
+    match amount(c, 17) { Amt::Ok(v, _) => acc(vec![("amount", CV::D(v))]), Amt::NoSep(_) => V::Unspec("amount.no-separator"), Amt::Dot => V::Unspec("amount.dot"), Amt::Bad(w) => V::Reject(w) }
 }
 fn rec_20(c: &str) -> V { reference(c, 16, true) }
 fn rec_21(c: &str) -> V { reference(c, 16, true) }
@@ -324,11 +325,11 @@ fn rec_25p(c: &str) -> V {
     match bic(ls[1]) { Bic::Bad => V::Reject("bic"), Bic::Unspec => V::Unspec("bic.lower-case"), Bic::Ok => acc(vec![("account", p(ls[0])), ("bic", s(ls[1]))]) }
 }
 fn rec_26t(c: &str) -> V {
-    if rx!(r"^[A-Z0-9]{3}$").is_match(c) { acc(vec![("type_code", s(c))]) } else { V::Reject("shape") }
+    if rx!(r"^[A-Z0-9]{3}$").is_match(c) { acc(vec![("type_code", s(c))]) } else if rx!(r"^[A-Za-z0-9]{3}$").is_match(c) { V::Unspec("lower-case") } else { V::Reject("shape") }
 }
 fn rec_28_generic(c: &str, seqmax: usize, seq_mandatory: bool, k1: &'static str, k2: &'static str) -> V {
     if !all_ascii(c) { return V::Reject("charset=non-ascii"); }
-    let pat = format!(r"^(\d{{1,5}})(?:/(\d{{1,{seqmax}}}))?$");
+    let pat = format!(r"^([0-9]{{1,5}})(?:/([0-9]{{1,{seqmax}}}))?$");
     let r = Regex::new(&pat).unwrap();
     let Some(m) = r.captures(c) else { return V::Reject("shape"); };
     let a: u64 = m[1].parse().unwrap();
@@ -394,6 +395,7 @@ fn rec_36(c: &str) -> V {
             acc(vec![("rate", CV::D(v))])
         }
         Amt::NoSep(_) => V::Unspec("amount.no-separator"),
+        Amt::Dot => V::Unspec("amount.dot"),
         Amt::Bad(w) => V::Reject(w),
     }
 }
@@ -408,6 +410,7 @@ fn rec_37h(c: &str) -> V {
     match amount(rest, 12) {
         Amt::Ok(x, _) => { v.push(("rate", CV::D(x))); acc(v) }
         Amt::NoSep(_) => V::Unspec("amount.no-separator"),
+        Amt::Dot => V::Unspec("amount.dot"),
         Amt::Bad(w) => V::Reject(w),
     }
 }
@@ -467,15 +470,15 @@ fn rec_numbered(c: &str) -> V {
     if rest.is_empty() { return V::Reject("name.lines=0"); }
     if rest.len() > 4 { return V::Reject("name.lines=max+1"); }
     for (k, l) in rest.iter().enumerate() {
-        let Some(m) = rx!(r"^(\d)/(.*)$").captures(l) else { return V::Reject("line-not-numbered"); };
+        let Some(m) = rx!(r"^([0-9])/(.*)$").captures(l) else { return V::Reject("line-not-numbered"); };
         let t = &m[2];
         if !is_x_line(t) { return V::Reject("charset=non-x"); }
         if t.len() > 33 { return V::Reject("name.line.len=max+1"); }
         if t.is_empty() { return V::Unspec("empty-numbered-line"); }
         // the number written is part of the content; it must survive (compare literal line)
+        // numbered lines count 1, 2, 3 … : anything else would have to be re-numbered on output
         let n: usize = m[1].parse().unwrap();
-        if n == 0 || n > 8 { return V::Unspec("line-number-range"); }
-        let _ = k;
+        if n != k + 1 { return V::Reject("line-numbering"); }
         v.push(("name_and_address", CV::NL(l.to_string())));
     }
     acc(v)
@@ -635,7 +638,7 @@ fn rec_61(c: &str) -> V {
     if !all_ascii(c) { return V::Reject("charset=non-ascii"); }
     let ls = lines_of(c);
     if ls.len() > 2 { return V::Reject("lines=3"); }
-    let Some(m) = rx!(r"^(\d{6})(\d{4})?(RD|RC|D|C)([A-Z])?([0-9,]{1,15})([A-Z][A-Z0-9]{3})(.*)$").captures(ls[0]) else { return V::Reject("shape"); };
+    let Some(m) = rx!(r"^([0-9]{6})([0-9]{4})?(RD|RC|D|C)([A-Z])?([0-9,.]{1,15})([A-Z][A-Z0-9]{3})(.*)$").captures(ls[0]) else { return V::Reject("shape"); };
     let Some((y, mo, d)) = date6(&m[1]) else { return V::Reject("date.invalid"); };
     let mut v = vec![("value_date", CV::Date(y, mo, d))];
     if let Some(e) = m.get(2) {
@@ -646,17 +649,19 @@ fn rec_61(c: &str) -> V {
     }
     v.push(("debit_credit_mark", s(&m[3])));
     if let Some(f) = m.get(4) { v.push(("funds_code", s(f.as_str()))); }
-    match amount(&m[5], 15) { Amt::Ok(x, _) => v.push(("amount", CV::D(x))), Amt::NoSep(_) => return V::Unspec("amount.no-separator"), Amt::Bad(w) => return V::Reject(w) }
+    match amount(&m[5], 15) { Amt::Ok(x, _) => v.push(("amount", CV::D(x))), Amt::NoSep(_) => return V::Unspec("amount.no-separator"), Amt::Dot => return V::Unspec("amount.dot"), Amt::Bad(w) => return V::Reject(w) }
     v.push(("transaction_type", s(&m[6])));
     let rest = &m[7];
     if !is_x_line(rest) { return V::Reject("charset=non-x"); }
     let (cust, bank) = match rest.find("//") { Some(i) => (&rest[..i], Some(&rest[i + 2..])), None => (rest, None) };
     if cust.is_empty() { return V::Unspec("customer-reference.len=0"); }
-    if cust.len() > 16 { return V::Reject("customer-reference.len=max+1"); }
+    // the doc format string writes [16x][//16x][34x] without a line break, the struct separates the
+    // supplementary details by a line break: an over-long reference on the first line is ambiguous
+    if cust.len() > 16 { return V::Unspec("customer-reference.len>16"); }
     v.push(("customer_reference", s(cust)));
     if let Some(b) = bank {
         if b.is_empty() { return V::Unspec("bank-reference.len=0"); }
-        if b.len() > 16 { return V::Reject("bank-reference.len=max+1"); }
+        if b.len() > 16 { return V::Unspec("bank-reference.len>16"); }
         if b.contains("//") { return V::Unspec("bank-reference.double-slash"); }
         v.push(("bank_reference", s(b)));
     }
@@ -690,7 +695,7 @@ fn rec_86(c: &str) -> V { text_block(c, 6, 65, "narrative") }
 fn rec_90(c: &str) -> V {
     // 5n3!a15d
     if !all_ascii(c) { return V::Reject("charset=non-ascii"); }
-    let Some(m) = rx!(r"^(\d{1,5})([^0-9].*)$").captures(c) else { return V::Reject("shape"); };
+    let Some(m) = rx!(r"^([0-9]{1,5})([^0-9].*)$").captures(c) else { return V::Reject("shape"); };
     let n: u64 = m[1].parse().unwrap();
     match ccy_amount(&m[2], false, false) {
         Ok(mut v) => { v.insert(0, ("number", CV::N(n))); acc(v) }
